@@ -268,7 +268,7 @@ def higher(shape, kind, D, P, seed, salt):
     return h
 
 
-VARIANTS = ['dense', 'arg0:order1=0', 'arg0:const', 'arg1:order1=0', 'arg1:const', 'arg0:high*2^31']
+VARIANTS = ['dense', 'arg0:order1=0', 'arg0:const', 'arg1:order1=0', 'arg1:const', 'arg0:high*2^31', 'arg0:top=nonfinite', 'arg1:top=nonfinite']
 
 
 def make_args(entry, D, P, seed=0, variant='dense'):
@@ -291,17 +291,23 @@ def make_args(entry, D, P, seed=0, variant='dense'):
             data[1] = 0
         if variant == 'arg%d:const' % nu and D > 1:
             data[1:] = 0
+        if variant == 'arg%d:top=nonfinite' % nu and D > 1:
+            # the LAST coefficient holds inf (direction 0) / nan (last direction) in one element: all lower orders of any
+            # result are defined by the lower input orders alone and must not see it
+            flat = data.reshape(D, P, -1)
+            flat[D - 1, 0, 0] = np.inf
+            flat[D - 1, P - 1, flat.shape[2] - 1] = np.nan
         if variant == 'arg%d:high*2^31' % nu and D > 2:
             data[2:] *= 2.0 ** 31        # huge coefficients of order >= 2 must not influence orders 0 and 1
         out.append(UTPM(data))
     return out
 
 
-def variants_for(entry, D):
+def variants_for(entry, D, nonfinite=False):
     nu = sum(1 for q in entry.args if q[0] == 'u')
     if D < 2:
         return ['dense']
-    out = [v for v in VARIANTS if v == 'dense' or (int(v[3]) < nu and 'high' not in v)]
+    out = [v for v in VARIANTS if v == 'dense' or (int(v[3]) < nu and 'high' not in v and (nonfinite or 'nonfinite' not in v))]
     if D > 2 and entry.tags & {'decomp', 'linalg'}:
         out.append('arg0:high*2^31')
     return out
